@@ -100,6 +100,42 @@ def unconditional(chk, ctx, rule, label, src_field):
                 ctx.site(bad[0][0]) if bad else None)
 
 
+APPEND_ONLY = ("core::iter::traits::collect::Extend::extend", "alloc::vec::Vec::push", "core::option::Option::as_mut",
+               "core::ops::deref::DerefMut::deref_mut", "core::option::Option::as_ref", "alloc::vec::Vec::extend_from_slice",
+               "alloc::vec::Vec::append", "alloc::vec::Vec::reserve")
+
+
+def order_preserving(chk, ctx, src_field):
+    """the carried-over list (delegations.roles: order = delegation priority) is only appended to"""
+    bad = []
+    carried = lambda og: bool(og) and any(self_field(o, src_field) for o in og)
+    for b in ctx.body.blocks:
+        if b.cleanup:
+            continue
+        for s in b.stmts:
+            if s.k == "assign" and s.place.proj and "roles" in s.place.fields() and carried(ctx.origins.of_local(s.place.local)):
+                bad.append((site_of(s.sp), "the role list is replaced"))
+        t = b.term
+        if t is None or t.k != "call" or not t.args:
+            continue
+        a0 = t.args[0]
+        if a0.place is None:
+            continue
+        # a call that receives `&mut <carried>.roles` (or the carried local mutably)
+        is_mut = False
+        for (kind, dbb, idx, obj) in ctx.origins.defs.get(a0.place.local, []):
+            if kind == "stmt" and obj.rv.k == "ref" and obj.rv.j.get("mut"):
+                is_mut = True
+        if not is_mut:
+            continue
+        if carried(ctx.origins.of_operand(a0)) and not t.is_call_to(*APPEND_ONLY):
+            bad.append((site_of(t.sp), "mutated through %s" % (t.resolved or t.callee)))
+    chk.require(not bad, "R1", ctx.fn, "order-preserved:" + src_field,
+                "the carried-over %s are not only appended to (%s): the order of delegated roles is their priority, a "
+                "no-op update would change which role a target resolves to" % (src_field, bad[:3]),
+                bad[0][0] if bad else None)
+
+
 def self_field(o, name):
     return o.kind in ("param", "upvar") and o.key[1] == "self" and o.fields[:1] == (name,)
 
@@ -154,6 +190,7 @@ def run(chk, prog):
                                     "content would be dropped when a repository is updated" % (fld, src, sorted(map(repr, og))[:4]), site_of(s.sp))
                     for fld, src in (("targets", "existing_targets"), ("delegations", "delegations"), ("_extra", "_extra")):
                         unconditional(chk, ctx, "R1", "always-keeps:" + fld, src)
+                    order_preserving(chk, ctx, "delegations")
                     if adt is not None:
                         allf = [f["n"] for f in adt["variants"][0]["fields"]]
                         chk.require(set(allf) == set(s.rv.j["fields"]), "R1", ctx.fn, "all-fields-considered",
